@@ -3,6 +3,6 @@ from props import records
 
 
 def run(ses):
-    records.check_unit(ses, "volume", ["table"])
+    records.check_unit(ses, "volume", ["table", "frame"])
     ses.trust("pyvc engine; z3/cvc5", "construct combinators and atomic codecs as modelled in pyvc.layout (T3)",
               "specification table spec/tables/volume.json (authored from the pinned layout; anchors checked)")
